@@ -57,6 +57,15 @@ fn main() {
     }
 }
 
+/// progress marker: the driver reads the last CASE line when the process dies from an abort (SIGABRT from an
+/// unsafe-precondition check cannot be caught by catch_unwind)
+pub fn mark(arg: &str) {
+    use std::io::Write;
+    let mut o = std::io::stdout().lock();
+    let _ = writeln!(o, "CASE {}", js(arg));
+    let _ = o.flush();
+}
+
 pub fn labels_from_str(s: &str) -> Vec<CharacterBoundary> {
     s.chars()
         .map(|c| match c {
